@@ -25,7 +25,7 @@ ASSUMPTIONS = [
 ]
 BUDGET = {'quick': 320, 'thorough': 16000}
 EXHAUSTIVE_DOMAINS = {
-    'shapes2': 'all shapes with <=2 decision points, k<=3, <=3 candidates, sub-space at first or last candidate, reference size<=36 (thorough: <=80)',
+    'shapes2': 'all shapes with <=2 decision points, k<=3, <=3 candidates, sub-space at first or last candidate, reference size<=24 (thorough: <=80)',
     'shapes3': 'thorough only: every 3rd shape with <=3 decision points and reference size<=80',
 }
 
@@ -41,7 +41,7 @@ def strategy(tier):
 
 
 def exhaustive(tier):
-  limit = 36 if tier == 'quick' else 80
+  limit = 24 if tier == 'quick' else 80
 
   def wrap(it, step=1):
     for i, s in enumerate(it):
